@@ -221,6 +221,7 @@ pub fn run(ctx: &Ctx) -> Report {
         "quoted_name",
         "non_utf8_through_footer",
         "number_congruent_modulo_a_power_of_two",
+        "sentence_wrapped_in_non_ascii_white_space",
     ];
     if let Err(e) = crate::mon::c03::self_tests() {
         rep.inconclusive.push(format!("model self-test failed: {}", e));
@@ -281,6 +282,26 @@ pub fn run(ctx: &Ctx) -> Report {
             let s = sentence(rng).into_bytes();
             n += check_string(l, &s);
             l.distinct_hash(Fnv::new().b(&s).get());
+            if rng.chance(1, 3) {
+                // characters that are white space for Unicode (or for C's isspace) but not ASCII white space, at the
+                // ends of a sentence: not stripped by any entry point, so the string is not a sentence
+                const WS: [&str; 14] = ["\u{b}", "\u{85}", "\u{a0}", "\u{1680}", "\u{2000}", "\u{2003}", "\u{200a}", "\u{2028}", "\u{2029}", "\u{202f}", "\u{205f}", "\u{3000}", "\u{feff}", "\u{1c}"];
+                let w = rng.pick(&WS).as_bytes();
+                let mut b = vec![];
+                let side = rng.below(3);
+                if side != 1 {
+                    b.extend(w);
+                }
+                b.extend(&s);
+                if side != 0 {
+                    b.extend(w);
+                }
+                n += check_string(l, &b);
+                l.distinct_hash(Fnv::new().b(&b).get());
+                l.class("sentence_wrapped_in_non_ascii_white_space");
+                // and such a character alone
+                n += check_string(l, w);
+            }
             if rng.chance(1, 4) {
                 let mut b = s.clone();
                 let p = rng.below(b.len() as u64) as usize;
